@@ -36,6 +36,8 @@ type dnode struct {
 	tname string // struct type name
 	sub   []*dnode
 	opt   bool // declared |{optional:true}: may be missing from a document
+	// incell (smap, YAML only): declared "@incell": true and written as one scalar "k:v,k:v"
+	incell bool
 }
 
 type dval struct {
@@ -94,7 +96,9 @@ func (g *dgen) node0(depth int, xml bool) *dnode {
 	case 5:
 		return &dnode{kind: "ilist", name: g.fname(), typ: []string{"int32", "uint32", "int64"}[g.r.Intn(3)]}
 	case 6:
-		return &dnode{kind: "smap", name: g.fname(), ktyp: []string{"uint32", "int32", "string"}[g.r.Intn(3)], typ: []string{"int32", "string", "uint32", "enum<.FruitType>"}[g.r.Intn(4)]}
+		n := &dnode{kind: "smap", name: g.fname(), ktyp: []string{"uint32", "int32", "string"}[g.r.Intn(3)], typ: []string{"int32", "string", "uint32", "enum<.FruitType>"}[g.r.Intn(4)]}
+		n.incell = !xml && g.r.Intn(3) == 0
+		return n
 	case 7:
 		return &dnode{kind: "istruct", name: g.fname(), tname: g.tname()}
 	case 8, 9:
@@ -179,7 +183,12 @@ func (g *dgen) value(n *dnode) *dval {
 				key = "k" + key
 			}
 			v.keys = append(v.keys, key)
-			v.vals = append(v.vals, g.scalarText(n.typ))
+			if n.incell && n.typ == "string" {
+				// values with the sub-separator inside (clock times, host:port, URLs): an item is cut at its FIRST ':'
+				v.vals = append(v.vals, []string{"a", "x:y", "10:30:00", "http://h/p", "w1"}[r.Intn(5)])
+			} else {
+				v.vals = append(v.vals, g.scalarText(n.typ))
+			}
 		}
 		if len(v.keys) == 0 {
 			v.absent = true
@@ -380,6 +389,12 @@ func longForm(n *dnode) bool {
 
 func (w *ywriter) schemaFields(nodes []*dnode, ind string) {
 	for _, n := range nodes {
+		if n.kind == "smap" && n.incell {
+			w.ln(ind + n.name + ":")
+			w.ln(ind + `  "@type": ` + yqt("map<"+n.ktyp+", "+n.typ+">"+optSfx(n)))
+			w.ln(ind + `  "@incell": true`)
+			continue
+		}
 		if longForm(n) {
 			switch n.kind {
 			case "slist", "ilist":
@@ -476,6 +491,14 @@ func (w *ywriter) dataFields(nodes []*dnode, vals []*dval, ind string, first str
 				w.ln(ind + "  - " + yamlScalar(n.typ, e))
 			}
 		case "smap":
+			if n.incell {
+				var items []string
+				for k, key := range v.keys {
+					items = append(items, key+":"+v.vals[k])
+				}
+				w.ln(pfx() + n.name + ": " + yq(strings.Join(items, ",")))
+				break
+			}
 			w.ln(pfx() + n.name + ":")
 			for k, key := range v.keys {
 				w.ln(ind + "  " + key + ": " + yamlScalar(n.typ, v.vals[k]))
